@@ -726,13 +726,37 @@ def file_layout(i, fname, m, meta):
     covered = np.where(offs >= meta.nfine)[0]
     b2c = [int(c) for c in covered[np.argsort(offs[covered])]]
     op = [[9], [meta.nfine], idx, [int(b) for b in flags], b2c]
+    extra = []
+    # the raw rows of every block, at [off*wmult//wdiv, (off+nfine)*wmult//wdiv) of the flattened storage, are
+    # the cells of that coverage pixel and nothing else (FileRows.rows_of_a_block: wide wmult = width, packed wdiv = 8)
+    try:
+        if sp is not None and (meta.kind in ('wide', 'packed') or (meta.kind == 'plain' and m.dtype != np.bool_)):
+            raw = sp.ravel()
+            wmult = int(hdr['WWIDTH']) if meta.kind == 'wide' else 1
+            wdiv = 8 if meta.kind == 'packed' else 1
+            for c in covered:
+                off = int(offs[c])
+                rows = raw[off * wmult // wdiv: (off + meta.nfine) * wmult // wdiv]
+                vals = m.get_values_pix(np.arange(c * meta.nfine, (c + 1) * meta.nfine, dtype=np.int64))
+                if meta.kind == 'wide':
+                    same = np.array_equal(rows.astype(np.uint8), np.asarray(vals, dtype=np.uint8).ravel())
+                elif meta.kind == 'packed':
+                    same = np.array_equal(np.unpackbits(rows.astype(np.uint8), bitorder='little').astype(bool),
+                                          np.asarray(vals, dtype=bool))
+                else:
+                    same = np.array_equal(rows, np.asarray(vals), equal_nan=(np.dtype(m.dtype).kind == 'f'))
+                if not same:
+                    extra += fail(i, 'the rows of a block in the written file are not the cells of its coverage pixel')
+                    break
+    except Exception as e:  # noqa
+        extra += fail(i, 'block rows of the written file could not be compared: %s: %s' % (type(e).__name__, e))
 
     def cmp(res):
         if res[1] != [1]:
             return [dict(step=i, what='the COV/SPARSE extensions of a written file violate the published layout',
                          layer='L0', impl=dict(idx=idx), model=res[1])]
         return []
-    return [(op, cmp)]
+    return [(op, cmp)] + extra
 
 
 @step('wr')
@@ -1486,6 +1510,75 @@ def do_rdeg(env, st, i):
         btoks = qtok(r1._sentinel)
     r = (m.nside_sparse // n) ** 2
     pairs.append(([[20], [9200], [out], [r, RED[red]], ktoks(nm), [use_w], btoks], expect_ok(i, 'rdeg-degrade')))
+    return pairs
+
+
+# ---------------------------------------------------------------- HEALPix-format inputs (C16, C19)
+def _write_implicit(fn, dense_nest, nside, ring, rows2d):
+    """a standard IMPLICIT HEALPix file (binary table, column T) written with astropy, independently of healsparse"""
+    import astropy.io.fits as afits
+    data = hpg.reorder(dense_nest, ring_to_nest=False) if ring else dense_nest
+    fmt = {'float64': 'D', 'float32': 'E'}[np.dtype(data.dtype).name]
+    if rows2d:
+        col = afits.Column(name='T', format='4' + fmt, array=data.reshape((-1, 4)))
+    else:
+        col = afits.Column(name='T', format=fmt, array=data)
+    hdu = afits.BinTableHDU.from_columns([col])
+    hdu.header['PIXTYPE'] = 'HEALPIX'
+    hdu.header['ORDERING'] = 'RING' if ring else 'NESTED'
+    hdu.header['INDXSCHM'] = 'IMPLICIT'
+    hdu.header['NSIDE'] = int(nside)
+    hdu.header['FIRSTPIX'] = 0
+    hdu.header['LASTPIX'] = int(12 * nside * nside - 1)
+    hdu.writeto(fn, overwrite=True)
+
+
+@step('rdeghp')
+def do_rdeghp(env, st, i):
+    """a HEALPix-format file of map h (explicit partial written by healsparse, or implicit written with astropy):
+    read back [-> outp] it must equal h re-housed; read with degrade_nside/reduction [-> out] it must equal the
+    plain read degraded in memory [-> out2]"""
+    h = st['h']
+    m = env.maps[h]
+    meta = env.meta[h]
+    fmt = st['fmt']
+    fn = os.path.join(tmpdir(), 'hpin_%d_%d.fits' % (i, os.getpid()))
+    if meta.kind != 'plain' or m.dtype == np.bool_:
+        return []
+    if fmt == 'explicit':
+        _, err = run_api(i, "write(format='healpix')", lambda: m.write(fn, clobber=True, format='healpix'))
+        if err:
+            return fail(i, err)
+    else:
+        if np.dtype(m.dtype).kind != 'f' or m._sentinel != UNSEEN:
+            return []
+        dense = m.generate_healpix_map(nest=True)
+        _write_implicit(fn, dense, m.nside_sparse, fmt == 'implicit_ring', bool(st.get('rows2d')))
+    a, err = run_api(i, 'read(healpix file)', lambda: HealSparseMap.read(fn, nside_coverage=m.nside_coverage))
+    if err:
+        return fail(i, err)
+    env.put(st['outp'], a)
+    pairs = meta_check(i, 'healpix %s file' % fmt, describe(a), describe(m))
+    pairs.append(([[22], [h], [st['outp']], [meta.ncov, meta.nfine], [0], []], expect_ok(i, 'rdeghp-read')))
+    n = st.get('nside_out')
+    if n is None:
+        return pairs
+    red = st['reduction']
+    r1, e1 = run_api(i, 'read(healpix file, degrade_nside=)',
+                     lambda: HealSparseMap.read(fn, nside_coverage=m.nside_coverage, degrade_nside=n, reduction=red))
+    r2, e2 = run_api(i, 'read(healpix file).degrade()', lambda: a.degrade(n, reduction=red))
+    if e1 or e2:
+        if e1 and e2:
+            return pairs
+        return pairs + fail(i, 'HEALPix input: degrade-on-read and read-then-degrade disagree: %s / %s' % (e1 or 'ok', e2 or 'ok'))
+    pairs += same_kind(i, 'HEALPix input: degrade-on-read vs read-then-degrade', r1, r2)
+    v1, v2 = r1.valid_pixels, r2.valid_pixels
+    if sorted(int(p) for p in v1) != sorted(int(p) for p in v2):
+        pairs += fail(i, 'HEALPix input: degrade-on-read and read-then-degrade have different valid pixels')
+    elif v1.size and not np.array_equal(r1.get_values_pix(np.sort(v1)), r2.get_values_pix(np.sort(v1)), equal_nan=True):
+        pairs += fail(i, 'HEALPix input: degrade-on-read and read-then-degrade have different values')
+    if not np.array_equal(r1.coverage_mask, r2.coverage_mask):
+        pairs += fail(i, 'HEALPix input: degrade-on-read and read-then-degrade have different coverage masks')
     return pairs
 
 
